@@ -509,6 +509,77 @@ def r09_11(run, model):
     run.floor("arms of anf.rs that bind sub-terms", n, 15)
 
 
+NONCONSUMING = {"get_ty", "len", "iter", "is_empty", "first", "last", "as_ref", "as_str", "get", "contains", "iter_mut", "as_slice"}
+
+
+def r09_12(run, model):
+    run.rule("R09.12", "an arm that leaves early takes its translated sub-terms along: in every arm of a rewriting pass, each sub-term the arm "
+                       "has already translated (a local bound from a call of the traversal) is moved into a value before every `return` that "
+                       "follows it - a sub-term only looked at through `&` on that path is dropped together with its effects - unless the "
+                       "path has established that it is a variable or an empty list")
+    from lib import passes as P
+    trs = P.discover(model, min_cover=5, include_pprint=False)
+
+    def by_value_uses(node, name, par):
+        out = []
+        for x in S.walk(node):
+            if x["k"] == "Path" and len(x["segs"]) == 1 and x["segs"][0] == name:
+                p_ = par.parent(x)
+                if p_ is not None and (p_["k"] in ("Ref", "Field", "Index") or (p_["k"] == "MethodCall" and p_["recv"] is x and p_["method"] in NONCONSUMING)):
+                    continue
+                out.append(x)
+        return out
+    n = 0
+    for t in trs:
+        if t.enum_name == "Ty":
+            continue
+        ret = (t.fn.node.get("ret") or "")
+        if not any(re.search(r"(?<![A-Za-z0-9_])" + en + r"(?![A-Za-z0-9_])", ret) for en in P.IR_ENUMS | {"ExprId"}):
+            continue
+        for vname, lst in sorted(t.covered.items()):
+            for arm, alt in lst:
+                rets = [r for r in S.walk_no_closures(arm["body"]) if r["k"] == "Return"]
+                if not rets:
+                    continue
+                par = S.Parents(arm["body"])
+                rec = [l for l in S.find(arm["body"], "Local") if l.get("init") is not None and l["pat"]["k"] == "PIdent" and
+                       any(True for _ in S.calls(l["init"], t.fn.name))]
+                for ri, r in enumerate(rets, 1):
+                    anc = list(par.ancestors(r))
+                    blocks = [a for a in anc if a["k"] == "Block"]
+                    for l in rec:
+                        if not any(any(st is l for st in b["stmts"]) for b in blocks) or (l["sp"][0], l["sp"][1]) > (r["sp"][0], r["sp"][1]):
+                            continue
+                        nm = l["pat"]["name"]
+                        n += 1
+                        uses = by_value_uses(r, nm, par)
+                        for b in blocks:
+                            for st in b["stmts"]:
+                                if (st["sp"][2], st["sp"][3]) <= (r["sp"][0], r["sp"][1]) and (st["sp"][0], st["sp"][1]) > (l["sp"][2], l["sp"][3]):
+                                    uses += by_value_uses(st, nm, par)
+                        why = "moved into a value on this path" if uses else "only looked at by reference before this return"
+                        ok = bool(uses)
+                        if not ok:
+                            for iff in (a for a in anc if a["k"] == "If" and S.span_contains(a["then"]["sp"], r["sp"])):
+                                for c in S.walk(iff["cond"]):
+                                    if c["k"] == "MethodCall" and c["method"] == "is_empty" and S.is_path(c["recv"], nm):
+                                        ok, why = True, f"the path has tested `{nm}.is_empty()`"
+                                    if c["k"] == "Let" and nm in S.idents(c["expr"]) and len(S.idents(c["expr"])) == 1:
+                                        h = S.pat_head(c["pat"])
+                                        if h[0] == "variant" and len(h[1]) >= 2:
+                                            try:
+                                                ed = model.resolve_enum(t.fn.file, h[1][-2], [h[1][-1]])
+                                            except Exception:
+                                                ed = None
+                                            v = next((v for v in (ed or {}).get("variants", []) if v["name"] == h[1][-1]), None)
+                                            if v is not None and not P.child_fields(v, ed["name"], extra=("ImmExpr", "AExpr", "CExpr", "Expr")):
+                                                ok, why = True, f"the path has matched `{nm}` against {h[1][-2]}::{h[1][-1]}, a form without sub-terms"
+                        run.ob("R09.12", f"{t.fn.name}|{vname}: `{nm}` survives return #{ri}", ok, site(t.fn.file, r["sp"]), why,
+                               witness="next(counter, \"left\") * 0 becomes the literal 0: an algebraic shortcut taken after the operands were translated "
+                                       "returns without them; the call and its output vanish")
+    run.floor("(early return, translated sub-term) pairs examined", n, 15)
+
+
 def run(run, model):
     run.try_rule(r09_10, model)
     run.try_rule(r09_11, model)
@@ -522,4 +593,5 @@ def run(run, model):
     run.try_rule(r09_3, model)
     run.try_rule(r09_4, model)
     run.try_rule(r09_5, model)
+    run.try_rule(r09_12, model)
     run.assume("children of a Lift IR variant are declared in source evaluation order (callee, arguments; lhs, rhs; receiver, arguments) - read and confirmed for ECall, EBinary, EDynCall")
